@@ -62,7 +62,11 @@ impl BTreeSet<Value> {
         ensures r == exists|i: int| 0 <= i < self.elems().len() && veq(#[trigger] self.elems()[i], *v)
     { unimplemented!() }
     #[verifier::external_body]
-    pub fn insert(&mut self, v: Value) -> (r: bool) ensures final(self).elems() == old(self).elems().push(v) { unimplemented!() }
+    /// BTreeSet::insert (std): true and inserted iff no element compares equal; otherwise false and the set is unchanged
+    pub fn insert(&mut self, v: Value) -> (r: bool)
+        ensures r == !(exists|i: int| 0 <= i < old(self).elems().len() && veq(#[trigger] old(self).elems()[i], v)),
+            r ==> final(self).elems() == old(self).elems().push(v), !r ==> final(self).elems() == old(self).elems()
+    { unimplemented!() }
 }
 /// `v.sort_by(|a, b| a.cmp(b))`: std's contract — a STABLE sort: a permutation (witnessed by `perm`,
 /// the input position of each output element), non-decreasing, equal elements in input order
